@@ -121,6 +121,10 @@ void rk_init(void) {
 		fclose(f);
 		rename(tmp, ca_path[i]);     /* content is identical in every process (RSA PKCS#1 v1.5 signatures are deterministic) */
 	}
+	/* the platform's own certificate store (what OpenSSL's default paths lead to) holds only the ROGUE CA: an application that
+	 * configures its own truststore (created without the platform defaults) must not end up trusting it */
+	setenv("SSL_CERT_FILE", ca_path[1], 1);
+	setenv("SSL_CERT_DIR", "/nonexistent-verif-cert-dir", 1);
 	serial = 1000;
 }
 
